@@ -116,6 +116,27 @@ func runC17(cfg Cfg, keys []string, ops []Op, res *TaskResult) *Violation {
 	return v
 }
 
+// delete-only batches of existing keys on a partly filled file (DataFileSize 130): 10-byte keys, values of 4..12
+// bytes put the active file anywhere between "the batch still fits" and "the tombstones alone overflow it" - the
+// staged bytes of Batch.Delete decide whether the batch rotates first.
+var tenByteKeys = []string{"kkkkkkkkk1", "kkkkkkkkk2"}
+
+func deleteBatchAlphabet(c Cfg) []Op {
+	var a []Op
+	for _, n := range []int{4, 6, 8, 10, 12} {
+		a = append(a, Op{K: "put", Key: tenByteKeys[0], VC: "F", Arg: n}, Op{K: "put", Key: tenByteKeys[1], VC: "F", Arg: n})
+	}
+	return append(a,
+		Op{K: "batch", Sub: []Op{{K: "del", Key: tenByteKeys[0]}, {K: "del", Key: tenByteKeys[1]}}},
+		Op{K: "batch", Sub: []Op{{K: "del", Key: tenByteKeys[1]}}},
+		Op{K: "batch", Sub: []Op{{K: "del", Key: tenByteKeys[0]}, {K: "put", Key: tenByteKeys[1], VC: "F", Arg: 8}}},
+	)
+}
+
+var deleteBatchLevel = func(run func(cfg Cfg, keys []string, ops []Op, res *TaskResult) *Violation, d int) seqLevel {
+	return seqLevel{Name: fmt.Sprintf("delete-batch-d%d", d), Cfgs: []Cfg{defaultCfg}, Keys: tenByteKeys, Alpha: deleteBatchAlphabet, Depth: d, Dev: d, Run: run}
+}
+
 func init() {
 	register(&Check{
 		Prop:   "C17",
@@ -134,6 +155,7 @@ func init() {
 					{Name: "tiny-d3b2", Cfgs: tinyCfgs(), Keys: keysAB, Alpha: tinyAlphabet, Depth: 3, Dev: 2, Run: runC17},
 					{Name: "tiny-d4b2", Cfgs: []Cfg{defaultCfg}, Keys: keysAB, Alpha: tinyAlphabet, Depth: 4, Dev: 2, Run: runC17},
 					{Name: "block-d3b2", Cfgs: []Cfg{blockCfg()}, Keys: keysAB, Alpha: blockAlphabet, Depth: 3, Dev: 2, Run: runC17},
+					deleteBatchLevel(runC17, 3),
 				})
 			}
 			return seqTasks("C17", []seqLevel{
@@ -142,6 +164,7 @@ func init() {
 				{Name: "tiny-d4b3", Cfgs: tinyCfgs(), Keys: keysAB, Alpha: tinyAlphabet, Depth: 4, Dev: 3, Run: runC17},
 				{Name: "tiny-d5b3", Cfgs: []Cfg{defaultCfg}, Keys: keysAB, Alpha: tinyAlphabet, Depth: 5, Dev: 3, Split: 2, Run: runC17},
 				{Name: "block-d4b3", Cfgs: []Cfg{blockCfg()}, Keys: keysAB, Alpha: blockAlphabet, Depth: 4, Dev: 3, Run: runC17},
+				deleteBatchLevel(runC17, 4),
 			})
 		},
 		Replay: func(raw json.RawMessage) { seqReplayMain(raw, runC17) },
